@@ -72,6 +72,11 @@ func c08Cases(tier string) []c08Case {
 			{Kind: "error", Name: "E", Type: TStruct(fs...)},
 		}}, "fieldnames:"+strings.Join(group, ","))
 	}
+	// field names that differ only in letter case, of the same type, side by side and in a nested record
+	add(&RIDL{Name: "a.b", Members: []RMember{
+		{Kind: "method", Name: "M", In: TStruct(F("ab", T("int")), F("aB", T("int")), F("p", TStruct(F("id", T("string")), F("iD", T("string"))))), Out: TStruct(F("ab", T("int")), F("aB", T("int")), F("q", TStruct(F("id", T("string")), F("iD", T("string")))))},
+		{Kind: "error", Name: "E", Type: TStruct(F("ab", T("string")), F("aB", T("string")))},
+	}}, "fieldnames:case-only")
 	// interface names
 	for _, n := range []string{"A.Bc", "a.b-c", "org.example.more", "xn--a.b"} {
 		add(&RIDL{Name: n, Members: []RMember{t0, {Kind: "method", Name: "M", In: TStruct(F("x", TAlias("T0"))), Out: TStruct(F("y", T("string")))}, {Kind: "error", Name: "E", Type: TStruct(F("r", T("string")))}}}, "name:"+n)
